@@ -23,3 +23,37 @@ def g_arg_constructor_parameters(repo: Repo, rep, in_scope: Callable[[str], bool
         used = {x.id for x in ast.walk(fi.node) if isinstance(x, ast.Name) and isinstance(x.ctx, ast.Load)}
         unused = [p for p in ps if p not in used and not p.startswith("_")]
         rep.check(R, not unused, fi.site(), fi.fq, "all parameters are read", f"never read: {unused}", f"ignored constructor parameters {unused}")
+
+
+def g_pos_base_constructor_arguments(repo: Repo, rep, in_scope: Callable[[str], bool], floor: int, why: str):
+    """G-POS: a constructor that hands its parameters on to the base constructor BY POSITION puts each of them into the base parameter of the same
+    name: a variable named like base parameter q arriving in another base parameter p is a swapped argument (keywords cannot be swapped)."""
+    R = rep.rule("G-POS", "arguments handed to the base constructor by position arrive in the parameter they are named after (a name of another base parameter in that slot is a swap)",
+                 floor=floor, why=why)
+    for ci in repo.all_classes():
+        if not in_scope(ci.module.name):
+            continue
+        fi = ci.methods.get("__init__")
+        if fi is None:
+            continue
+        base = None
+        for c in repo.mro(ci)[1:]:
+            if "__init__" in c.methods:
+                base = c.methods["__init__"]
+                break
+        if base is None:
+            continue
+        a = base.node.args
+        bps = [x.arg for x in a.posonlyargs + a.args][1:]
+        allb = set(bps) | {x.arg for x in a.kwonlyargs}
+        for n in ast.walk(fi.node):
+            if not (isinstance(n, ast.Call) and ast.unparse(n.func) in ("super().__init__", f"super({ci.name}, self).__init__")):
+                continue
+            rep.saw(fi)
+            swapped = []
+            for k, arg in enumerate(n.args):
+                if isinstance(arg, ast.Starred):
+                    break
+                if isinstance(arg, ast.Name) and arg.id in allb and (k >= len(bps) or bps[k] != arg.id):
+                    swapped.append(f"`{arg.id}` arrives in `{bps[k] if k < len(bps) else '?'}`")
+            rep.check(R, not swapped, fi.site(n), fi.fq, f"positional arguments of super().__init__ match {base.fq}({', '.join(bps)})", "; ".join(swapped), "; ".join(swapped))
